@@ -263,8 +263,13 @@ func c04StaticDiff(spec *refcodec.Spec) []staticCase {
 		// about behaviour. Such messages are left to the dynamic half entirely (their differences are listed, not asserted).
 		notUnderstood := false
 		for _, o := range cm.Oddities {
+			if !accepted[o] && (strings.Contains(o, "unexpected") || strings.Contains(o, "dispatch none/")) {
+				notUnderstood = true // statements the extractor cannot read: whatever else it reports about this message is unreliable
+			}
+		}
+		for _, o := range cm.Oddities {
 			if !accepted[o] {
-				shape := !strings.Contains(o, "emission order") && !strings.Contains(o, "dispatch") && !strings.Contains(o, "has no case") && !strings.Contains(o, "identifier")
+				shape := notUnderstood || (!strings.Contains(o, "emission order") && !strings.Contains(o, "dispatch") && !strings.Contains(o, "has no case") && !strings.Contains(o, "identifier"))
 				out = append(out, staticCase{Msg: sm.Name, What: "unexpected code shape: " + o, Shape: shape})
 				if shape {
 					notUnderstood = true
